@@ -1,6 +1,7 @@
 package main
 
 import (
+	"github.com/cep21/circuit/v4/faststats"
 	"context"
 	"encoding/json"
 	"expvar"
@@ -310,7 +311,19 @@ func (consumersSuite) Run(h map[string]string, ops []string) []string {
 					rs.ErrTimeouts.TotalSum(), rs.ErrBadRequests.TotalSum(), rs.ErrInterrupts.TotalSum())
 				fbroll := int64s(fs.Successes.RollingSumAt(now), fs.ErrConcurrencyLimitRejects.RollingSumAt(now), fs.ErrFailures.RollingSumAt(now))
 				fbtot := int64s(fs.Successes.TotalSum(), fs.ErrConcurrencyLimitRejects.TotalSum(), fs.ErrFailures.TotalSum())
-				return fmt.Sprintf("tot=%s roll=%s fbtot=%s fbroll=%s errpct=%s", tot, roll, fbtot, fbroll, ratStr(rs.ErrorPercentageAt(now)))
+				// C14 on every counter a collector OWNS: the rolling sum is the sum of the buckets and lies within [0, total]
+				cons := "1"
+				for _, rc := range []*faststats.RollingCounter{&rs.Successes, &rs.ErrConcurrencyLimitRejects, &rs.ErrFailures, &rs.ErrShortCircuits, &rs.ErrTimeouts,
+					&rs.ErrBadRequests, &rs.ErrInterrupts, &fs.Successes, &fs.ErrConcurrencyLimitRejects, &fs.ErrFailures} {
+					sum := int64(0)
+					for _, b := range rc.GetBuckets(now) {
+						sum += b
+					}
+					if r := rc.RollingSumAt(now); r != sum || r < 0 || r > rc.TotalSum() {
+						cons = "0"
+					}
+				}
+				return fmt.Sprintf("tot=%s roll=%s fbtot=%s fbroll=%s errpct=%s cons=%s", tot, roll, fbtot, fbroll, ratStr(rs.ErrorPercentageAt(now)), cons)
 			case "slo":
 				return fmt.Sprintf("pass=%d fail=%d cbpass=%d cbfail=%d", tracker.MeetsSLOCount.Get(), tracker.FailsSLOCount.Get(), sc.pass, sc.fail)
 			case "stream":
